@@ -139,6 +139,9 @@ def build_model(ck: Checker) -> TransferModel:
 
                 if any(norm(a_) == dir_obj for a_ in value_alts(g, x, c.args[0], depth=3)):
                     m.success_list = c.func.value.id
+                # ... or a pair (directory, something computed from it) is remembered
+                if isinstance(c.args[0], ast.Tuple) and c.args[0].elts and any(norm(a_) == dir_obj for a_ in value_alts(g, x, c.args[0].elts[0], depth=3)):
+                    m.success_list = c.func.value.id
     return m
 
 
